@@ -128,7 +128,7 @@ def r1_panic_free(ck, F):
     root = A("reader_new")
     bodies, ext, rec = closure_of(F, root)
     ck.extra.setdefault("open_closure", {})[F.config] = sorted(bodies)
-    ck.floor(R, "bodies in the closure of Reader::new", len(bodies), 4, F.config)
+    ck.floor(R, "bodies in the closure of Reader::new", len(bodies), 3, F.config)
     need = {A("reader_new"), A("meta_read"), A("from_u8")}
     ck.ob(R, "closure-contains-trailer-reader", need <= set(bodies), f"closure of Reader::new = {sorted(x.split('::')[-1] for x in bodies)}", config=F.config, nontrivial=False)
     npan = nasrt = 0
@@ -204,7 +204,10 @@ def r3_accept_table(ck, F):
     # Reader::new adds nothing
     rn = F.body(A("reader_new"))
     cs = [callee_name(c) for s, c, t in rn.calls()]
-    ck.ob(R, "reader-new-is-trailer-read", cs == [A("meta_read"), "std::result::Result::<T, E>::map"], f"Reader::new = Metadata::read_from(&mut reader).map(..) ({cs})", rn)
+    rd = [s for s, c, t in calls(rn, A("meta_read"))]
+    other = [n for n in cs if n != A("meta_read") and not n.endswith("Result::<T, E>::map") and not n.endswith("Try>::branch") and not n.endswith("::from_residual")]
+    from .errflow import propagated
+    ck.ob(R, "reader-new-is-trailer-read", len(rd) == 1 and not other and not rn.loops() and propagated(F, rn, rd[0]) and is_arg(rn.arg_exprs(rd[0])[0], "reader"), f"Reader::new = Metadata::read_from(&mut reader) with its error propagated and nothing else ({cs})", rn)
     # every branch in read_from is one of: `?`, the magic switch, the version match
     sws = []
     for bb in sorted(b.normal_blocks()):
